@@ -130,6 +130,29 @@ def judge_band(low, high):
     return out
 
 
+def judge_forms(f, snr=False):
+    """input forms for EASRadio.__call__ (six event columns) and calculate_snr (the field array)"""
+    from nuspacesim.simulation.eas_radio.radio import EASRadio
+    from nuspacesim.simulation.eas_radio.radio_antenna import calculate_snr
+
+    from .. import forms
+
+    cfg = make_cfg(525.0, 30, 300)
+    evs = [(math.radians(10), 20.0, alt_of(20.0, math.radians(10)), 0.02, 1500.0, 1.0), (math.radians(5), 500.0, alt_of(500.0, math.radians(5)), 0.03, 1500.0, 3.0), (math.radians(3), 900.0, 12.0, 0.02, 1500.0, 1.0), (1.0, 3.0, 2.0, 0.0, 1500.0, 2.0)]
+    arr = np.array(evs, dtype=float)
+    cols = [arr[:, i].copy() for i in (0, 2, 1, 3, 4, 5)]  # beta, altDec, lenDec, theta, path length, shower energy
+
+    def rcall(*a):
+        with own.RngStub(fn=lambda idx, n: np.full(n, 0.37)).installed(), own.quiet(), np.errstate(all="ignore"):
+            return EASRadio(cfg)(*a)
+
+    if not snr:
+        return forms.judge(rcall, cols, tuple(f), what="EASRadio.__call__")
+    ef = np.asarray(rcall(*cols), dtype=float)
+    with np.errstate(all="ignore"):
+        return forms.judge(lambda e: calculate_snr(e, (30.0, 300.0), 525.0, 10, 1.8), [ef], tuple(f), what="calculate_snr")
+
+
 SCAN_STEPS = [("band", 30, 300), ("band", 300, 1000), ("band", 330, 600), ("band", 30, 80), ("alt", 33.0), ("alt", 525.0), ("iono", False), ("nant", 4)]
 
 
@@ -297,6 +320,16 @@ def run(ctx):
             ctx.violation(c, {"kind": "band", "low": low, "high": high}, e, o)
     ctx.cov["bands"] = nb
     ctx.sample({"kind": "band", "low": 30, "high": 300, "bins": 27})
+    from .. import forms as _forms
+
+    for f in _forms.product(6, per_array=("f4", "i8")):
+        ctx.tick(4, ("forms", f))
+        for c, e, o in judge_forms(f):
+            ctx.violation(c, {"kind": "forms", "forms": list(f), "snr": False}, e, o)
+    for f in (("f4",), (">f8",), (">f4",)):
+        ctx.tick(4, ("forms_snr", f))
+        for c, e, o in judge_forms(f, snr=True):
+            ctx.violation(c, {"kind": "forms", "forms": list(f), "snr": True}, e, o)
     # call histories on one EASRadio object whose configuration is changed in place between calls
     depth = 2 if tier == "quick" else 3
     nscan = 0
@@ -352,6 +385,8 @@ def replay(case):
         return judge_band(case["low"], case["high"])
     if k == "scan":
         return judge_scan(tuple(case["seq"]))
+    if k == "forms":
+        return judge_forms(case["forms"], case.get("snr", False))
     if k == "event":
         # the event together with a partner (order clause needs two)
         partner = (math.radians(10), 20.0, alt_of(20.0, math.radians(10)), 1.0, 1500.0, 1.0)
